@@ -104,9 +104,17 @@ CLAIMS = {
         text="LIST equalities (order and multiplicity) c16_unnest_pair, c16_unnest_elem, c16_unnest_parent_cond, "
              "c16_unnest_elem_cond, c16_unnest_both_cond (and_ of a parent condition and an element condition), "
              "c16_unnest_elem_vs_parent (the element compared with an expression over its OWN parent), c16_nonempty_singleton: flatten(t) yields one row per inner element, correlated with its parent, "
-             "with/without conditions on parent or element, parent selected or not; proved for an arbitrary World. Correspondence: "
+             "with/without conditions on parent or element, parent selected or not; proved for an arbitrary World. For ANY condition and "
+             "selection with flatten nodes (set level; Lemmas/Flat.lean re-proves soundness and completeness of the evaluator with "
+             "flatten in the language, an assignment giving every flatten node an element of its operand's collection): "
+             "c16_unnest_complete_general (no admissible (parent, element, ...) combination that satisfies the condition is lost), "
+             "c16_unnest_sound_general (every row is the selection under every admissible assignment extending ONE output binding, which "
+             "satisfies the condition), c16_flatten_binds_an_element, and THE EQUIVALENCE c16_unnest_rows_iff for every condition whose "
+             "disjunctions bind the same ids on both sides: a row is produced iff some admissible assignment satisfies the condition "
+             "and the row is the selection under it (Lemmas/FlatAdm.lean: evaluation only produces admissible bindings). Correspondence: "
              "parents with empty/overlapping/scalar/repeated/falsy inner values, every selection and condition shape incl. and_/or_.",
-        note=BASE_NOTE + "Disjunctions and other combinations of conditions are covered by correspondence. With caching enabled a condition on "
+        note=BASE_NOTE + "Multiplicities for disjunctions and other combinations of conditions are covered by correspondence (the "
+             "general theorems are set-level; the equivalence needs uniform disjunctions). With caching enabled a condition on "
              "the flattened element is subject to known finding C05-F2 (cache keyed on variables only).",
         tech="Lean 4 proof (list equalities by unfolding the evaluator + cond_dist) + differential correspondence"),
     'C17': dict(
